@@ -18,7 +18,7 @@
    Part A: the model restated stage by stage (pure model lemmas).
    Part B: the scenario read off the inputs and the oracles; the theorem.                      *)
 From Coq Require Import List Bool String Ascii NArith ZArith Lia.
-From NV Require Import Base Regex Generated C02_Levels VerifyCore C02_Model C02_Core C02_Proofs
+From NV Require Import Base Regex Generated C02_Levels VerifyCore C02_Model C02_Core C02_Proofs C02_Struct
                        C20_Semver C02_Versions.
 From NV Require Import GoLib C02_Gen C02_GenProofs.
 Import ListNotations.
@@ -308,9 +308,921 @@ Hypothesis H_ppr : forall cs o news rs processed ti rev,
   presp_m = PResp processed ti rev ->
   good (Some (ppr cs respp o)) (process_plugin_response crit_processed lvl the_sc (map cap_of cs) processed ti rev rs).
 
+(* ---------- helper lemmas ---------- *)
+
+Notation LOOP1 := (gen_verifier_verifier_processSignature_loop1 gcmp C subjs getmeta PL mget vsig VP raw load vauth vids vexp vts ast PM ppr up).
+
+Lemma str_key_any_str a :
+  snd (any_str "string" (Attribute_Key a)) = match str_key a with Some _ => true | None => false end.
+Proof.
+  unfold str_key. rewrite any_str_value. destruct (Attribute_Key a) as [|ty k| | | |]; try reflexivity.
+  destruct (String.eqb ty "string"); reflexivity.
+Qed.
+
+(* loop 1: a critical attribute whose key is not a Go string ends the verification (inconclusive);
+   otherwise the loop has no effect *)
+Lemma loop1_skip pcs o e name : forall l,
+  (nonstring_crit_of l = true ->
+     exists f w, LOOP1 pcs o e policy stores v sv name ids cfg l = Some (o, Some (Err inconclusive_typ f w)))
+  /\ (nonstring_crit_of l = false ->
+     LOOP1 pcs o e policy stores v sv name ids cfg l = LOOP1 pcs o e policy stores v sv name ids cfg []).
+Proof.
+  (* the [] instance is the whole rest of the function: keep it folded *)
+  remember (LOOP1 pcs o e policy stores v sv name ids cfg []) as NIL eqn:EN.
+  induction l as [|a l IH]; [split; [discriminate|intros _; symmetry; exact EN]|].
+  cbn [nonstring_crit_of existsb]. fold (nonstring_crit_of l).
+  cbn [gen_verifier_verifier_processSignature_loop1]. pose proof (str_key_any_str a) as K.
+  destruct (any_str "string" (Attribute_Key a)) as [s ok]. cbn [snd] in K. subst ok.
+  destruct (str_key a) as [k|]; cbn [negb andb orb]; [exact IH|].
+  destruct (Attribute_Critical a); cbn [orb].
+  - split; [|discriminate]. intros _. eexists. eexists. reflexivity.
+  - exact IH.
+Qed.
+
+Notation LOOP2 := (gen_verifier_verifier_processSignature_loop2 C).
+Notation LOOP3 := (gen_verifier_verifier_processSignature_loop3 C).
+Notation LOOP4 := (gen_verifier_verifier_processSignature_loop4 C).
+
+(* loop 2 (verifier.go:581): any critical attribute ends the verification (inconclusive) *)
+Lemma loop2_spec K o : forall l,
+  (existsb Attribute_Critical l = true -> exists f w, LOOP2 K o l = Some (o, Some (Err inconclusive_typ f w)))
+  /\ (existsb Attribute_Critical l = false -> LOOP2 K o l = K tt).
+Proof.
+  induction l as [|a l IH]; [split; [discriminate|reflexivity]|].
+  cbn [gen_verifier_verifier_processSignature_loop2 existsb].
+  destruct (Attribute_Critical a); cbn [orb]; [|exact IH].
+  split; [|discriminate]. intros _. eexists. eexists. reflexivity.
+Qed.
+
+(* loop 3 (verifier.go:557): the capabilities to verify = all but revocation when the level skips it *)
+Definition keep_cap (lv0 : trustpolicy_VerificationLevel) (pc : string) : bool :=
+  negb (String.eqb (enf_get lv0 "revocation") "skip" && String.eqb pc cap_rev).
+
+Lemma loop3_spec K o lv0 : ptr_val (VerificationOutcome_VerificationLevel C o) = Some lv0 ->
+  forall l acc, LOOP3 K o l acc = K (acc ++ filter (keep_cap lv0) l).
+Proof.
+  intros HL. induction l as [|pc l IH]; intros acc; [cbn; now rewrite app_nil_r|].
+  cbn [gen_verifier_verifier_processSignature_loop3 filter]. rewrite HL. unfold keep_cap at 1. unfold enf_get, cap_rev.
+  destruct (String.eqb (map_get_or String.eqb "" "revocation" (VerificationLevel_Enforcement lv0)) "skip" && String.eqb pc "SIGNATURE_VERIFIER.REVOCATION_CHECK");
+    cbn [negb]; rewrite IH; [reflexivity|]. now rewrite <- app_assoc.
+Qed.
+
+(* loop 4 (verifier.go:476): the verification capabilities of the plugin, in order *)
+Definition is_ver_cap (s : string) : bool := String.eqb s cap_rev || String.eqb s cap_ti.
+
+Lemma loop4_spec K : forall l acc, LOOP4 K l acc = K (acc ++ filter is_ver_cap l).
+Proof.
+  induction l as [|c l IH]; intros acc; [cbn; now rewrite app_nil_r|].
+  cbn [gen_verifier_verifier_processSignature_loop4 filter]. cbv zeta. unfold is_ver_cap at 1. unfold cap_rev, cap_ti.
+  destruct (String.eqb c "SIGNATURE_VERIFIER.REVOCATION_CHECK" || String.eqb c "SIGNATURE_VERIFIER.TRUSTED_IDENTITY");
+    rewrite IH; [|reflexivity]. now rewrite <- app_assoc.
+Qed.
+
+Lemma cap_of_rev s : cap_eqb (cap_of s) CapRev = String.eqb s cap_rev.
+Proof.
+  unfold cap_of. destruct (String.eqb s cap_ti) eqn:E; [apply String.eqb_eq in E; subst s; reflexivity|].
+  destruct (String.eqb s cap_rev); reflexivity.
+Qed.
+Lemma cap_of_ti s : cap_eqb (cap_of s) CapTI = String.eqb s cap_ti.
+Proof.
+  unfold cap_of. destruct (String.eqb s cap_ti) eqn:E; [reflexivity|].
+  destruct (String.eqb s cap_rev); reflexivity.
+Qed.
+
+Lemma verification_caps_of l : map cap_of (filter is_ver_cap l) = verification_caps (map cap_of l).
+Proof.
+  induction l as [|s l IH]; [reflexivity|]. cbn [filter map verification_caps]. fold (verification_caps (map cap_of l)).
+  unfold is_ver_cap at 1. unfold cap_of at 2.
+  destruct (String.eqb s cap_ti) eqn:T.
+  - rewrite orb_true_r. cbn [map]. rewrite IH. unfold cap_of. rewrite T. reflexivity.
+  - rewrite orb_false_r. destruct (String.eqb s cap_rev) eqn:R; [cbn [map]; rewrite IH; unfold cap_of; rewrite T, R; reflexivity|exact IH].
+Qed.
+
+Lemma caps_to_verify_of lv0 l :
+  map cap_of (filter (keep_cap lv0) l) = caps_to_verify (glevel_of lv0) (map cap_of l).
+Proof.
+  induction l as [|s l IH]; [reflexivity|]. cbn [filter map caps_to_verify]. fold (caps_to_verify (glevel_of lv0) (map cap_of l)).
+  unfold keep_cap at 1. cbn [glevel_of l_rev]. rewrite parse_action_skip, cap_of_rev.
+  destruct (negb (String.eqb (enf_get lv0 "revocation") "skip" && String.eqb s cap_rev)); [cbn [map]; now rewrite IH|exact IH].
+Qed.
+
+Lemma contains_cap_loop s l : gen_slices_Contains_plugin_Capability_loop1 s l = mem_str s l.
+Proof.
+  induction l as [|a l IH]; [reflexivity|]. cbn [gen_slices_Contains_plugin_Capability_loop1 mem_str existsb]. cbv zeta.
+  destruct (String.eqb s a); [reflexivity|exact IH].
+Qed.
+
+Lemma has_cap_of c s l : (forall x, cap_eqb (cap_of x) c = String.eqb x s) ->
+  has_cap c (map cap_of l) = gen_slices_Contains_plugin_Capability l s.
+Proof.
+  intros H. unfold gen_slices_Contains_plugin_Capability. rewrite contains_cap_loop. unfold has_cap, mem_str.
+  induction l as [|a l IH]; [reflexivity|]. cbn [map existsb]. rewrite IH.
+  assert (E : cap_eqb c (cap_of a) = String.eqb s a).
+  { rewrite String.eqb_sym, <- H. destruct c, (cap_of a); reflexivity. }
+  now rewrite E.
+Qed.
+
+
+Lemma anyv_eqb_str_key a key : anyv_eqb (Attribute_Key a) (GoLib.AStr "string" key) = true <-> str_key a = Some key.
+Proof.
+  unfold str_key. destruct (Attribute_Key a) as [|ty k| | | |]; cbn [anyv_eqb]; try (split; discriminate).
+  rewrite andb_true_iff, !String.eqb_eq. split.
+  - intros [-> ->]. reflexivity.
+  - destruct (String.eqb ty "string") eqn:T; [|discriminate]. apply String.eqb_eq in T. intros H. injection H as ->. now split.
+Qed.
+
+Lemma find_attr_in key l a : In a l -> str_key a = Some key -> find_attr key l <> None.
+Proof.
+  induction l as [|b l IH]; [intros []|]. intros [->|I] S; cbn [find_attr].
+  - apply anyv_eqb_str_key in S. rewrite S. discriminate.
+  - destruct (anyv_eqb (Attribute_Key b) (GoLib.AStr "string" key)); [discriminate|now apply IH].
+Qed.
+
+Lemma find_attr_some key l x : find_attr key l = Some x -> In x l /\ str_key x = Some key.
+Proof.
+  induction l as [|b l IH]; [discriminate|]. cbn [find_attr].
+  destruct (anyv_eqb (Attribute_Key b) (GoLib.AStr "string" key)) eqn:E.
+  - intros H. injection H as ->. split; [left; reflexivity|now apply anyv_eqb_str_key].
+  - intros H. destruct (IH H) as [I S]. split; [right; exact I|exact S].
+Qed.
+
+(* the last test of processSignature (no plugin named): some attribute is critical *)
+Lemma any_critical_of :
+  attr_state hdr_plugin attrs = AAbsent -> nonstring_crit_of attrs = false ->
+  existsb Attribute_Critical attrs = any_critical_attribute the_sc.
+Proof.
+  intros HP HN. unfold any_critical_attribute, other_crit, the_sc. cbn [s_other s_minver_attr].
+  (* every critical attribute has a string key; it is another attribute or the min-version header *)
+  assert (G : forall l, (forall a, In a l -> In a attrs) ->
+              existsb Attribute_Critical l
+              = match map fst (filter snd (other_of l)) with
+                | _ :: _ => true
+                | [] => existsb (fun a => Attribute_Critical a && match str_key a with Some k => String.eqb k hdr_minver | None => false end) l
+                end).
+  { induction l as [|a l IH]; intros Sub; [reflexivity|].
+    assert (Ia : In a attrs) by (apply Sub; left; reflexivity).
+    specialize (IH (fun x Hx => Sub x (or_intror Hx))).
+    cbn [existsb other_of flat_map]. fold (other_of l).
+    destruct (str_key a) as [k|] eqn:SK.
+    - unfold mem_str. cbn [existsb]. rewrite orb_false_r.
+      destruct (String.eqb k hdr_plugin) eqn:EP.
+      + (* a plugin header would make the demand present *)
+        exfalso. apply String.eqb_eq in EP. subst k. unfold attr_state in HP.
+        pose proof (find_attr_in hdr_plugin attrs a Ia SK) as F.
+        destruct (find_attr hdr_plugin attrs) as [x|]; [|now elim F].
+        destruct (Attribute_Critical x); [|discriminate].
+        destruct (Attribute_Value x) as [|ty s| | | |]; try discriminate. destruct (String.eqb ty "string"); discriminate.
+      + cbn [orb]. destruct (String.eqb k hdr_minver) eqn:EM.
+        * cbn [app]. rewrite IH. rewrite andb_true_r.
+          destruct (map fst (filter snd (other_of l))); [reflexivity|now rewrite orb_true_r].
+        * cbn [app filter snd]. rewrite andb_false_r. cbn [orb].
+          destruct (Attribute_Critical a); cbn [map orb]; [reflexivity|exact IH].
+    - (* a non-string key: not critical *)
+      assert (NC : Attribute_Critical a = false).
+      { unfold nonstring_crit_of in HN. destruct (Attribute_Critical a) eqn:CA; [|reflexivity].
+        assert (X : existsb (fun a0 => match str_key a0 with None => Attribute_Critical a0 | Some _ => false end) attrs = true).
+        { apply existsb_exists. exists a. split; [exact Ia|]. now rewrite SK. }
+        rewrite X in HN. discriminate. }
+      rewrite NC. cbn [andb orb app]. exact IH. }
+  rewrite (G attrs (fun a H => H)).
+  destruct (map fst (filter snd (other_of attrs))); [|reflexivity].
+  (* the min-version header: only its first occurrence exists (H_once) *)
+  unfold attr_state. destruct (find_attr hdr_minver attrs) as [x|] eqn:FM.
+  - pose proof (find_attr_some hdr_minver attrs x FM) as Ix.
+    destruct Ix as [Ix Sx].
+    transitivity (Attribute_Critical x).
+    + destruct (Attribute_Critical x) eqn:CX.
+      * apply existsb_exists. exists x. split; [exact Ix|]. rewrite CX, Sx, String.eqb_refl. reflexivity.
+      * apply not_true_is_false. intros E. apply existsb_exists in E. destruct E as (y & Iy & Ey).
+        apply andb_true_iff in Ey. destruct Ey as [Cy Ky].
+        destruct (str_key y) as [k|] eqn:SY; [|discriminate]. apply String.eqb_eq in Ky. subst k.
+        pose proof (H_once y Iy SY) as HY. try rewrite FM in HY. injection HY as HY. subst. congruence.
+    + destruct (Attribute_Critical x); [|reflexivity].
+      destruct (Attribute_Value x) as [|ty s| | | |]; try reflexivity. destruct (String.eqb ty "string"); reflexivity.
+  - apply not_true_is_false. intros E. apply existsb_exists in E. destruct E as (y & Iy & Ey).
+    apply andb_true_iff in Ey. destruct Ey as [Cy Ky].
+    destruct (str_key y) as [k|] eqn:SY; [|discriminate]. apply String.eqb_eq in Ky. subst k.
+    pose proof (H_once y Iy SY) as HY. try rewrite FM in HY. discriminate.
+Qed.
+
+
+Lemma good_ret o e news m :
+  agree o -> VerificationOutcome_VerificationResults C o = VR0 ++ news ->
+  Forall2 res_is news (snd m) -> err_rel e (fst m) news -> good (Some (o, e)) m.
+Proof. intros A V F E. exists o, e, news. repeat split; try assumption; apply A. Qed.
+
+Lemma res_is_icf p m r : res_is p m -> ptr_val p = Some r ->
+  gen_verifier_isCriticalFailure r = icf (r_action m) (r_failed m)
+  /\ vtype_of (ValidationResult_Type r) = Some (r_type m)
+  /\ (r_failed m = true -> ValidationResult_Error r <> None)
+  /\ (r_failed m = false -> ValidationResult_Error r = None).
+Proof.
+  intros (r' & P & T & A & F) E. rewrite P in E. injection E as <-.
+  rewrite gen_isCriticalFailure_equiv, A, F. split; [reflexivity|]. split; [exact T|].
+  unfold vr_failed in F. split; intros H; rewrite H in F; destruct (ValidationResult_Error r'); cbn in F; congruence.
+Qed.
+
+Lemma icf_failed a f : icf a f = true -> f = true.
+Proof. destruct a; cbn; congruence. Qed.
+
+(* the outcome after the integrity result was appended *)
+Definition o1 : notation_go_VerificationOutcome C :=
+  set_VerificationOutcome_VerificationResults C
+    (VerificationOutcome_VerificationResults C (set_VerificationOutcome_EnvelopeContent C envp out0) ++ [irp])
+    (set_VerificationOutcome_EnvelopeContent C envp out0).
+
+Lemma o1_agree : agree o1.
+Proof. split; reflexivity. Qed.
+Lemma o1_results : VerificationOutcome_VerificationResults C o1 = VR0 ++ [irp].
+Proof. reflexivity. Qed.
+
+
+Definition disc_obs (d : discovery) : VerifyCore.err * list result :=
+  match d with
+  | DErr e _ => (e, [integ])
+  | DNoPlugin => m_auth lvl the_sc false []
+  | DPlugin _ c => m_auth lvl the_sc true c
+  end.
+
+Lemma blank_nonempty n : blank n = false -> n <> "".
+Proof. intros B ->. vm_compute in B. discriminate. Qed.
+
+
+(* naming a let-bound continuation without inlining it *)
+Ltac name_let :=
+  lazymatch goal with
+  | |- good (let x := ?a in @?b x) ?m =>
+      let n := fresh x in remember a as n eqn:?EK; change (good (b n) m); cbv beta
+  end.
+(* zeta on the model side only *)
+Ltac zeta_model :=
+  lazymatch goal with |- good ?t ?m => let m' := eval cbv zeta in m in change (good t m') end.
+(* substituting a simple let *)
+Ltac inline_let :=
+  lazymatch goal with
+  | |- good (let x := ?a in @?b x) ?m => change (good (b a) m); cbv beta
+  end.
+
+
+(* unfolding equations of the staged model (rewriting with them leaves the generated side alone) *)
+Lemma m_auth_eq l s p c :
+  m_auth l s p c =
+  if icf (l_auth l) (negb (s_auth s =? 0)%N)
+  then (EResult TAuth, [integ; mk_res TAuth (l_auth l) (negb (s_auth s =? 0)%N)])
+  else if negb (has_cap CapTI c)
+       then if icf (l_auth l) (negb (s_auth s =? 0)%N || negb (s_identity_ok s))
+            then (EResult TAuth, [integ; mk_res TAuth (l_auth l) (negb (s_auth s =? 0)%N || negb (s_identity_ok s))])
+            else m_exp l s p c [integ; mk_res TAuth (l_auth l) (negb (s_auth s =? 0)%N || negb (s_identity_ok s))]
+       else m_exp l s p c [integ; mk_res TAuth (l_auth l) (negb (s_auth s =? 0)%N)].
+Proof. reflexivity. Qed.
+Lemma m_exp_eq l s p c rs1 :
+  m_exp l s p c rs1 =
+  if icf (l_exp l) (s_expired s) then (EResult TExpiry, rs1 ++ [mk_res TExpiry (l_exp l) (s_expired s)])
+  else m_ts l s p c (rs1 ++ [mk_res TExpiry (l_exp l) (s_expired s)]).
+Proof. reflexivity. Qed.
+Lemma m_ts_eq l s p c rs2 :
+  m_ts l s p c rs2 =
+  if icf (l_ts l) (negb (s_ts_ok s)) then (EResult TTimestamp, rs2 ++ [mk_res TTimestamp (l_ts l) (negb (s_ts_ok s))])
+  else m_rev l s p c (rs2 ++ [mk_res TTimestamp (l_ts l) (negb (s_ts_ok s))]).
+Proof. reflexivity. Qed.
+Lemma m_rev_eq l s p c rs3 :
+  m_rev l s p c rs3 =
+  if negb (action_eqb (l_rev l) Skip) && negb (has_cap CapRev c)
+  then if icf (l_rev l) (negb (s_rev_ok s)) then (EResult TRev, rs3 ++ [mk_res TRev (l_rev l) (negb (s_rev_ok s))])
+       else m_tail l s p c (rs3 ++ [mk_res TRev (l_rev l) (negb (s_rev_ok s))])
+  else m_tail l s p c rs3.
+Proof. reflexivity. Qed.
+Lemma m_tail_eq l s p c rs :
+  m_tail l s p c rs =
+  match caps_to_verify l c with
+  | _ :: _ => match s_presp s with
+              | PErr => (EOther, rs)
+              | PResp processed ti rev => process_plugin_response crit_processed l s (caps_to_verify l c) processed ti rev rs
+              end
+  | [] => if negb p && any_critical_attribute s then (EInconclusive, rs) else (ENone, rs)
+  end.
+Proof. reflexivity. Qed.
+Lemma lookup_plugin_eq s name :
+  lookup_plugin s name =
+  if minver_error s then DErr EInconclusive [] else
+  match s_pm s with
+  | PMNil => DErr EInconclusive []
+  | PMNotInstalled => DErr EInconclusive [name]
+  | PMMetaErr => DErr EOther [name]
+  | PMPlugin ver_valid ver_ge caps =>
+      if negb ver_valid then DErr EInconclusive [name]
+      else if negb ver_ge then DErr EInconclusive [name]
+      else match verification_caps caps with
+           | [] => DErr EInconclusive [name]
+           | vc => DPlugin name vc
+           end
+  end.
+Proof. reflexivity. Qed.
+
+Lemma s_auth_f0 : negb (s_auth the_sc =? 0)%N = negb b_auth.
+Proof. cbn [the_sc s_auth]. destruct b_auth; reflexivity. Qed.
+
+Lemma agree_env o : agree o -> ptr_val envp = Some env -> ptr_val (VerificationOutcome_EnvelopeContent C o) = Some env.
+Proof. intros [A _] H. now rewrite A. Qed.
+Lemma agree_lvl o : agree o -> ptr_val (VerificationOutcome_VerificationLevel C o) = Some lv.
+Proof. intros [_ A]. now rewrite A. Qed.
+
+(* appending a result keeps the frame *)
+Definition push (p : ptr notation_go_ValidationResult) (o : notation_go_VerificationOutcome C) :=
+  set_VerificationOutcome_VerificationResults C (VerificationOutcome_VerificationResults C o ++ [p]) o.
+Lemma push_agree p o : agree o -> agree (push p o).
+Proof. intros [A B]. split; assumption. Qed.
+Lemma push_results p o news : VerificationOutcome_VerificationResults C o = VR0 ++ news ->
+  VerificationOutcome_VerificationResults C (push p o) = VR0 ++ (news ++ [p]).
+Proof. intros V. cbn. rewrite V. now rewrite app_assoc. Qed.
+
+Lemma forall2_snoc news rs p m : Forall2 res_is news rs -> res_is p m -> Forall2 res_is (news ++ [p]) (rs ++ [m]).
+Proof. intros F R. apply Forall2_app; [exact F|]. constructor; [exact R|constructor]. Qed.
+
+Lemma err_rel_result news p r t : In p news -> ptr_val p = Some r -> vtype_of (ValidationResult_Type r) = Some t ->
+  ValidationResult_Error r <> None -> err_rel (ValidationResult_Error r) (EResult t) news.
+Proof. intros I P T N. split; [exact N|]. exists p, r. repeat split; assumption. Qed.
+
+Lemma body_spec e name :
+  b_int = true -> ptr_val envp = Some env -> res_is irp integ ->
+  nonstring_crit_of attrs = false ->
+  (plugin_res (attr_state hdr_plugin attrs) = XAbsent /\ name = "") \/ plugin_res (attr_state hdr_plugin attrs) = XVal name ->
+  good (LOOP1 [] o1 e policy stores v sv name ids cfg [])
+       (disc_obs (match plugin_res (attr_state hdr_plugin attrs) with XVal n => lookup_plugin the_sc n | _ => DNoPlugin end)).
+Proof.
+  intros BI HE RI NS HP.
+  cbv beta iota fix delta [gen_verifier_verifier_processSignature_loop1].
+  inline_let. name_let.
+  (* ------------------------------------------------------------------ *)
+  (* the native validations and the plugin stage: continuation k'6       *)
+  (* ------------------------------------------------------------------ *)
+  assert (HK6 : forall pcs ip plugin,
+            (plugin = false /\ name = "" /\ pcs = [] /\ ip = PNil) \/ (plugin = true /\ name <> "" /\ exists p, ptr_val ip = Some p) ->
+            good (k'6 pcs ip) (m_auth lvl the_sc plugin (map cap_of pcs))).
+  { intros pcs ip plugin HPL. subst k'6. cbv beta.
+    rewrite (agree_env o1 o1_agree HE).
+    change (SignedAttributes_SigningScheme (SignerInfo_SignedAttributes C (EnvelopeContent_SignerInfo C env))) with scheme.
+    rewrite H_load. cbv iota beta. inline_let. name_let.
+    set (caps := map cap_of pcs).
+    (* ---- after the authenticity result exists: k'8 ---- *)
+    assert (HK8 : forall o arp, agree o -> VerificationOutcome_VerificationResults C o = VR0 ++ [irp] ->
+              res_is arp (mk_res TAuth (l_auth lvl) (negb b_auth)) ->
+              good (k'8 o arp) (m_auth lvl the_sc plugin caps)).
+    { intros o arp A V RA. subst k'8. cbv beta. inline_let. inline_let. fold (push arp o).
+      pose proof RA as (ar & PA & _). rewrite PA. cbv beta iota.
+      destruct (res_is_icf arp _ ar RA PA) as (IC & TA & FT & FF). cbn [r_type r_action r_failed] in IC, TA, FT, FF.
+      pose proof (push_agree arp o A) as A2. pose proof (push_results arp o [irp] V) as V2. cbn [app] in V2.
+      rewrite m_auth_eq, s_auth_f0, IC.
+      destruct (icf (l_auth lvl) (negb b_auth)) eqn:C0.
+      { apply good_ret with (news := [irp; arp]); [exact A2|exact V2| |].
+        - cbn beta iota delta [snd]. constructor; [exact RI|]. constructor; [exact RA|constructor].
+        - cbn beta iota delta [fst]. apply err_rel_result with (p := arp); [right; left; reflexivity|exact PA|exact TA|].
+          apply FT. exact (icf_failed _ _ C0). }
+      name_let.
+      (* ---- expiry onwards: k'11 ---- *)
+      assert (HK11 : forall o' e' arp' f1, agree o' -> VerificationOutcome_VerificationResults C o' = VR0 ++ [irp; arp'] ->
+                res_is arp' (mk_res TAuth (l_auth lvl) f1) ->
+                good (k'11 o' e' arp') (m_exp lvl the_sc plugin caps [integ; mk_res TAuth (l_auth lvl) f1])).
+      { intros o' e' arp' f1 A' V' RA'. subst k'11. cbv beta. inline_let. inline_let. fold (push (vexp (PNew o')) o').
+        pose proof (H_exp o' A') as RE. pose proof RE as (er & PE & _). rewrite PE. cbv beta iota.
+        destruct (res_is_icf _ _ er RE PE) as (ICe & TE & FTe & FFe). cbn [r_type r_action r_failed] in ICe, TE, FTe, FFe.
+        pose proof (push_agree (vexp (PNew o')) o' A') as A3. pose proof (push_results (vexp (PNew o')) o' _ V') as V3. cbn [app] in V3.
+        assert (F3 : Forall2 res_is [irp; arp'; vexp (PNew o')] ([integ; mk_res TAuth (l_auth lvl) f1] ++ [mk_res TExpiry (l_exp lvl) (s_expired the_sc)])).
+        { cbn beta iota delta [app]. constructor; [exact RI|]. constructor; [exact RA'|]. constructor; [exact RE|constructor]. }
+        rewrite m_exp_eq. change (s_expired the_sc) with b_exp in *. rewrite ICe.
+        destruct (icf (l_exp lvl) b_exp) eqn:C2.
+        { apply good_ret with (news := [irp; arp'; vexp (PNew o')]); [exact A3|exact V3|exact F3|].
+          cbn beta iota delta [fst]. apply err_rel_result with (p := vexp (PNew o')); [right; right; left; reflexivity|exact PE|exact TE|].
+          apply FTe. exact (icf_failed _ _ C2). }
+        (* timestamp *)
+        set (o3 := push (vexp (PNew o')) o') in *.
+        inline_let. inline_let.
+        set (tsp := vts policy stores sv (verifier_trustStore C PM v) (verifier_revocationTimestampingValidator C PM v) (PNew o3)).
+        fold (push tsp o3).
+        pose proof (H_ts o3 A3) as RT. fold tsp in RT. pose proof RT as (tr & PT & _). rewrite PT. cbv beta iota.
+        destruct (res_is_icf _ _ tr RT PT) as (ICt & TT & FTt & FFt). cbn [r_type r_action r_failed] in ICt, TT, FTt, FFt.
+        pose proof (push_agree tsp o3 A3) as A4. pose proof (push_results tsp o3 _ V3) as V4. cbn [app] in V4.
+        set (rs2 := [integ; mk_res TAuth (l_auth lvl) f1] ++ [mk_res TExpiry (l_exp lvl) b_exp]) in *.
+        assert (F4 : Forall2 res_is [irp; arp'; vexp (PNew o'); tsp] (rs2 ++ [mk_res TTimestamp (l_ts lvl) (negb (s_ts_ok the_sc))])).
+        { apply (forall2_snoc [irp; arp'; vexp (PNew o')] rs2 tsp _ F3 RT). }
+        rewrite m_ts_eq. change (s_ts_ok the_sc) with b_ts in *. rewrite ICt.
+        destruct (icf (l_ts lvl) (negb b_ts)) eqn:C3.
+        { apply good_ret with (news := [irp; arp'; vexp (PNew o'); tsp]); [exact A4|exact V4|exact F4|].
+          cbn beta iota delta [fst]. apply err_rel_result with (p := tsp); [right; right; right; left; reflexivity|exact PT|exact TT|].
+          apply FTt. exact (icf_failed _ _ C3). }
+        set (o4 := push tsp o3) in *.
+        set (rs3 := rs2 ++ [mk_res TTimestamp (l_ts lvl) (negb b_ts)]) in *.
+        name_let.
+        (* ---- the plugin stage and the last test: k'14 ---- *)
+        assert (HK14 : forall o5 news rs, agree o5 -> VerificationOutcome_VerificationResults C o5 = VR0 ++ news ->
+                  Forall2 res_is news rs -> good (k'14 o5) (m_tail lvl the_sc plugin caps rs)).
+        { intros o5 news rs A5 V5 F5. subst k'14. cbv beta. name_let.
+          assert (HK15 : forall o6 news6 rs6, agree o6 -> VerificationOutcome_VerificationResults C o6 = VR0 ++ news6 ->
+                    Forall2 res_is news6 rs6 ->
+                    good (k'15 o6) (if negb plugin && any_critical_attribute the_sc then (EInconclusive, rs6) else (ENone, rs6))).
+          { intros o6 news6 rs6 A6 V6 F6. subst k'15. cbv beta. name_let.
+            assert (G0 : good (k'16 tt) (ENone, rs6)).
+            { subst k'16. apply good_ret with (news := news6); [exact A6|exact V6|exact F6|reflexivity]. }
+            destruct HPL as [(-> & -> & _ & _)|(-> & NN & _)].
+            - (* no plugin named: the last loop *)
+              change (String.eqb "" "") with true. cbv beta iota delta [negb andb]. inline_let. rewrite (agree_env o6 A6 HE).
+              fold sinfo. fold attrs.
+              assert (AB : attr_state hdr_plugin attrs = AAbsent).
+              { destruct HP as [[HP _]|HP].
+                - unfold plugin_res in HP. destruct (attr_state hdr_plugin attrs) as [| | |n]; cbn in HP; try discriminate; [reflexivity|].
+                  destruct (blank n); discriminate.
+                - unfold plugin_res in HP. destruct (attr_state hdr_plugin attrs) as [| | |n]; cbn in HP; try discriminate.
+                  destruct (blank n) eqn:B; [discriminate|]. injection HP as ->. vm_compute in B. discriminate. }
+              rewrite <- (any_critical_of AB NS).
+              destruct (loop2_spec (fun _ : unit => k'16 tt) o6 attrs) as [L1 L2].
+              destruct (existsb Attribute_Critical attrs).
+              + destruct (L1 eq_refl) as (f & w & ->).
+                apply good_ret with (news := news6); [exact A6|exact V6|exact F6|]. exists f, w. reflexivity.
+              + rewrite (L2 eq_refl). exact G0.
+            - (* a plugin was named *)
+              apply String.eqb_neq in NN. rewrite NN. cbv beta iota delta [negb andb]. exact G0. }
+          destruct HPL as [(-> & -> & -> & ->)|(-> & NN & p & PP)].
+          - (* no plugin *)
+            cbn beta iota delta [ptr_val]. rewrite m_tail_eq. subst caps. cbn beta iota delta [map caps_to_verify filter]. apply (HK15 o5 news rs A5 V5 F5).
+          - rewrite PP. inline_let. name_let. rewrite (loop3_spec k'22 o5 lv (agree_lvl o5 A5)). cbn beta iota delta [app].
+            subst k'22. cbv beta. rewrite list_len_pos.
+            rewrite m_tail_eq. subst caps. pose proof (caps_to_verify_of lv pcs) as CV. fold lvl in CV. rewrite <- CV.
+            destruct (filter (keep_cap lv) pcs) as [|c0 cs0] eqn:FK.
+            + cbn beta iota delta [map]. exact (HK15 o5 news rs A5 V5 F5).
+            + cbn beta iota delta [map]. rewrite <- FK. set (cs := filter (keep_cap lv) pcs) in *.
+              destruct A5 as [A5e A5l]. rewrite A5e.
+              destruct (gen_executePlugin_spec C vsig VP raw ip p cs envp env ids cfg PP HE) as (req & out & EX & POST & _).
+              rewrite EX. rewrite H_vsig in POST. unfold exec_post in POST. cbn [fst snd] in POST.
+              change (s_presp the_sc) with presp_m.
+              destruct out as [resp e2].
+              destruct (is_none ve && ptr_is_nil respp) eqn:NIL.
+              * (* a nil answer *)
+                cbn [fst snd] in POST. destruct POST as [-> N2]. destruct e2 as [x2|]; [|now elim N2]. cbn beta iota delta [is_none negb].
+                assert (PE' : presp_m = PErr).
+                { apply H_presp. apply andb_true_iff in NIL. destruct NIL as [_ ->]. apply orb_true_r. }
+                rewrite PE'. apply good_ret with (news := news); [split; assumption|exact V5|exact F5|discriminate].
+              * injection POST as -> ->. destruct ve as [x2|] eqn:VE; cbn beta iota delta [is_none negb].
+                -- assert (PE' : presp_m = PErr) by (apply H_presp; reflexivity).
+                   rewrite PE'. apply good_ret with (news := news); [split; assumption|exact V5|exact F5|discriminate].
+                -- cbn [is_none andb] in NIL.
+                   destruct presp_m as [|processed ti rev] eqn:PR.
+                   { exfalso. destruct H_presp as [H1 _]. specialize (H1 eq_refl). cbn [is_none negb orb] in H1. congruence. }
+                   pose proof (H_ppr cs o5 news rs processed ti rev (conj A5e A5l) V5 F5 eq_refl) as G.
+                   destruct (ppr cs respp o5) as [o7 e7]. rewrite FK in G. exact G. }
+        (* revocation *)
+        rewrite (agree_lvl o4 A4). fold (enf_get lv "revocation").
+        rewrite m_rev_eq. change (l_rev lvl) with (parse_action (enf_get lv "revocation")). rewrite parse_action_skip.
+        subst caps. rewrite (has_cap_of CapRev cap_rev pcs cap_of_rev). fold cap_rev.
+        destruct (negb (String.eqb (enf_get lv "revocation") "skip") && negb (gen_slices_Contains_plugin_Capability pcs cap_rev)).
+        2:{ exact (HK14 o4 _ rs3 A4 V4 F4). }
+        destruct (gen_revocation_stage C subjs ast PM v (PNew o4) o4 env lv b_rev eq_refl (agree_env o4 A4 HE) (agree_lvl o4 A4) H_rev)
+          as (rr & ER & TR & AR & FR & ICr).
+        rewrite ER. inline_let. inline_let. cbn beta iota delta [ptr_val]. fold (push (PNew rr) o4).
+        pose proof (push_agree (PNew rr) o4 A4) as A5. pose proof (push_results (PNew rr) o4 _ V4) as V5. cbn [app] in V5.
+        assert (RR : res_is (PNew rr) (mk_res TRev (parse_action (enf_get lv "revocation")) (negb (s_rev_ok the_sc)))).
+        { exists rr. cbn beta iota delta [ptr_val r_type r_action r_failed]. repeat split; [rewrite TR; reflexivity|exact AR|exact FR]. }
+        pose proof (forall2_snoc _ rs3 (PNew rr) _ F4 RR) as F5.
+        rewrite ICr. change (s_rev_ok the_sc) with b_rev in *. change (l_rev (glevel_of lv)) with (parse_action (enf_get lv "revocation")).
+        destruct (icf (parse_action (enf_get lv "revocation")) (negb b_rev)) eqn:C4.
+        { apply good_ret with (news := [irp; arp'; vexp (PNew o'); tsp] ++ [PNew rr]); [exact A5|exact V5|exact F5|].
+          cbn beta iota delta [fst]. apply err_rel_result with (p := PNew rr); [apply in_or_app; right; left; reflexivity|reflexivity|rewrite TR; reflexivity|].
+          pose proof (icf_failed _ _ C4) as FB. unfold vr_failed in FR. rewrite FB in FR.
+          destruct (ValidationResult_Error rr); [discriminate|discriminate FR]. }
+        exact (HK14 (push (PNew rr) o4) _ _ A5 V5 F5). }
+      (* trusted identities: natively unless the plugin owns them *)
+      subst caps. rewrite (has_cap_of CapTI cap_ti pcs cap_of_ti). fold cap_ti.
+      destruct (negb (gen_slices_Contains_plugin_Capability pcs cap_ti)).
+      2:{ exact (HK11 (push arp o) le arp (negb b_auth) A2 V2 RA). }
+      rewrite (agree_env _ A2 HE). fold sinfo. fold chain. inline_let. name_let.
+      assert (HK32 : forall o' arp' f1, agree o' -> VerificationOutcome_VerificationResults C o' = VR0 ++ [irp; arp'] ->
+                res_is arp' (mk_res TAuth (l_auth lvl) f1) ->
+                good (k'32 o' arp')
+                     (if icf (l_auth lvl) f1 then (EResult TAuth, [integ; mk_res TAuth (l_auth lvl) f1])
+                      else m_exp lvl the_sc plugin (map cap_of pcs) [integ; mk_res TAuth (l_auth lvl) f1])).
+      { intros o' arp' f1 A' V' RA'. subst k'32. cbv beta.
+        pose proof RA' as (ar' & PA' & _). rewrite PA'. cbv beta iota.
+        destruct (res_is_icf arp' _ ar' RA' PA') as (IC' & TA' & FT' & FF'). cbn [r_type r_action r_failed] in IC', TA', FT', FF'.
+        rewrite IC'. destruct (icf (l_auth lvl) f1) eqn:C1.
+        - apply good_ret with (news := [irp; arp']); [exact A'|exact V'| |].
+          + cbn beta iota delta [snd]. constructor; [exact RI|]. constructor; [exact RA'|constructor].
+          + cbn beta iota delta [fst]. apply err_rel_result with (p := arp'); [right; left; reflexivity|exact PA'|exact TA'|].
+            apply FT'. exact (icf_failed _ _ C1).
+        - exact (HK11 o' _ arp' f1 A' V' RA'). }
+      change (s_identity_ok the_sc) with (is_none (vids policy ids chain)).
+      destruct (vids policy ids chain) as [ie|] eqn:VI; cbn beta iota delta [is_none negb].
+      - (* the identity check failed: the error replaces the one of the authenticity result *)
+        rewrite orb_true_r. inline_let. inline_let. inline_let.
+        set (arp2 := PNew (set_ValidationResult_Error (Some ie) ar)).
+        assert (LS : list_set (list_len (VerificationOutcome_VerificationResults C o)) arp2
+                              (VerificationOutcome_VerificationResults C (push arp o))
+                     = VerificationOutcome_VerificationResults C o ++ [arp2]) by apply list_set_app_last.
+        rewrite LS. fold (push arp2 o).
+        apply (HK32 (push arp2 o) arp2 true (push_agree arp2 o A)).
+        + pose proof (push_results arp2 o [irp] V) as V2'. exact V2'.
+        + exists (set_ValidationResult_Error (Some ie) ar). cbn beta iota delta [ptr_val r_type r_action r_failed].
+          destruct RA as (ar0 & PA0 & T0 & A0 & _). rewrite PA in PA0. injection PA0 as <-.
+          repeat split; [exact T0|exact A0].
+      - rewrite orb_false_r. exact (HK32 (push arp o) arp (negb b_auth) A2 V2 RA). }
+    (* the authenticity result *)
+    destruct le as [lerr|] eqn:LE; cbn beta iota delta [is_none negb].
+    - rewrite (agree_lvl o1 o1_agree). inline_let. fold (enf_get lv "authenticity").
+      apply (HK8 o1 _ o1_agree o1_results).
+      rewrite (H_auth_le ltac:(discriminate)). eexists. cbn beta iota delta [ptr_val r_type r_action r_failed]. repeat split; reflexivity.
+    - inline_let. apply (HK8 o1 _ o1_agree o1_results). exact (H_auth eq_refl o1 o1_agree). }
+  (* ------------------------------------------------------------------ *)
+  (* discovery of the plugin                                             *)
+  (* ------------------------------------------------------------------ *)
+  assert (GI : forall e0, e0 <> None -> good (Some (o1, e0)) (EOther, [integ])).
+  { intros e0 N. apply good_ret with (news := [irp]); [exact o1_agree|exact o1_results| |exact N].
+    constructor; [exact RI|constructor]. }
+  assert (GN : forall f w, good (Some (o1, Some (Err inconclusive_typ f w))) (EInconclusive, [integ])).
+  { intros f w. apply good_ret with (news := [irp]); [exact o1_agree|exact o1_results| |].
+    - constructor; [exact RI|constructor].
+    - exists f, w. reflexivity. }
+  destruct HP as [[HP ->]|HP].
+  { rewrite HP. cbn beta iota delta [String.eqb negb disc_obs]. apply (HK6 [] PNil false). left. repeat split. }
+  rewrite HP.
+  assert (HA : attr_state hdr_plugin attrs = VerifyCore.AStr name /\ blank name = false).
+  { unfold plugin_res in HP. destruct (attr_state hdr_plugin attrs) as [| | |n]; cbn in HP; try discriminate.
+    destruct (blank n) eqn:B; [discriminate|]. injection HP as ->. split; [reflexivity|exact B]. }
+  destruct HA as [HA BN]. pose proof (blank_nonempty name BN) as NN.
+  assert (NE : String.eqb name "" = false) by (now apply String.eqb_neq).
+  rewrite NE. cbn beta iota delta [negb].
+  rewrite (agree_env o1 o1_agree HE). fold sinfo.
+  rewrite lookup_plugin_eq. rewrite (minver_error_by_minver_res the_sc eq_refl).
+  change (s_minver_attr the_sc) with (attr_state hdr_minver attrs).
+  destruct (gen_getVerificationPluginMinVersion_equiv C sinfo) as [M1 M2]. fold attrs in M1.
+  destruct (gen_verifier_getVerificationPluginMinVersion C sinfo) as [mv me]. unfold xres_of in M1. cbn [fst snd] in M1, M2.
+  assert (MV : (negb (is_none me) && negb (err_same me verifier_errExtendedAttributeNotExist) = true
+                /\ minver_res (attr_state hdr_minver attrs) = XErr)
+               \/ (negb (is_none me) && negb (err_same me verifier_errExtendedAttributeNotExist) = false
+                   /\ minver_res (attr_state hdr_minver attrs) <> XErr
+                   /\ mv = minver_string (attr_state hdr_minver attrs)
+                   /\ match attr_state hdr_minver attrs with VerifyCore.AStr m => sv_valid m = true | AAbsent => True | _ => False end)).
+  { destruct me as [x|]; cbn beta iota delta [is_none negb andb].
+    - destruct (err_same (Some x) verifier_errExtendedAttributeNotExist); cbn beta iota delta [negb].
+      + right. split; [reflexivity|]. rewrite <- M1. split; [discriminate|].
+        rewrite (M2 ltac:(discriminate)). unfold minver_res in M1.
+        destruct (attr_state hdr_minver attrs) as [| | |m]; cbn in M1; try discriminate; [split; [reflexivity|exact I]|].
+        destruct (blank m || negb (sv_valid m)); discriminate.
+      + left. split; [reflexivity|]. now rewrite <- M1.
+    - right. split; [reflexivity|]. rewrite <- M1. split; [discriminate|].
+      unfold minver_res in M1. destruct (attr_state hdr_minver attrs) as [| | |m]; cbn in M1; try discriminate.
+      destruct (blank m || negb (sv_valid m)) eqn:B; [discriminate|]. injection M1 as ->.
+      split; [reflexivity|]. apply orb_false_iff in B. destruct B as [_ B]. now apply negb_false_iff in B. }
+  destruct MV as [[-> ->]|(-> & MR & -> & MOK)].
+  { cbn beta iota delta [disc_obs]. apply GN. }
+  assert (ME : match minver_res (attr_state hdr_minver attrs) with XErr => true | _ => false end = false)
+    by (destruct (minver_res (attr_state hdr_minver attrs)); [reflexivity|now elim MR|reflexivity]).
+  rewrite ME.
+  change (s_pm the_sc) with (match plugin_res (attr_state hdr_plugin attrs) with XVal name0 => pm_of name0 | _ => PMNil end).
+  rewrite HP. unfold pm_of.
+  destruct (ptr_is_nil (verifier_pluginManager C PM v)) eqn:PN.
+  { cbn beta iota delta [disc_obs]. apply GN. }
+  rewrite ptr_is_nil_val in PN. destruct (ptr_val (verifier_pluginManager C PM v)) as [mgr|]; [|discriminate PN].
+  destruct (mget name) as [t e0].
+  destruct e0 as [x0|]; cbn beta iota delta [is_none negb].
+  { cbn beta iota delta [disc_obs]. apply GN. }
+  cbn beta iota delta [ptr_val].
+  destruct (getmeta (PNew (mk_GetMetadataRequest cfg))) as [mp e1].
+  destruct e1 as [x1|]; cbn beta iota delta [is_none negb].
+  { cbn beta iota delta [disc_obs]. apply GI. discriminate. }
+  destruct (ptr_val mp) as [m|].
+  2:{ cbn beta iota delta [negb disc_obs]. apply GN. }
+  rewrite gen_IsValid_equiv.
+  destruct (sv_valid (GetMetadataResponse_Version m)) eqn:VV; cbn beta iota delta [negb].
+  2:{ cbn beta iota delta [disc_obs]. apply GN. }
+  rewrite (gen_isRequired_equiv gcmp H_cmp H_rng _ (attr_state hdr_minver attrs) VV MOK).
+  destruct (ver_ge (GetMetadataResponse_Version m) (attr_state hdr_minver attrs)); cbn beta iota delta [negb].
+  2:{ cbn beta iota delta [disc_obs]. apply GN. }
+  rewrite loop4_spec. cbn beta iota delta [app]. rewrite list_len_zero.
+  rewrite <- verification_caps_of.
+  destruct (filter is_ver_cap (GetMetadataResponse_Capabilities m)) as [|c0 cs0] eqn:FC.
+  { cbn beta iota delta [map disc_obs]. apply GN. }
+  rewrite <- FC. set (pcs := filter is_ver_cap (GetMetadataResponse_Capabilities m)) in *.
+  assert (DP : disc_obs (match map cap_of pcs with [] => DErr EInconclusive [name] | c :: l => DPlugin name (c :: l) end)
+               = m_auth lvl the_sc true (map cap_of pcs)).
+  { rewrite FC. reflexivity. }
+  rewrite DP. apply (HK6 pcs (PNew (up t)) true). right. split; [reflexivity|]. split; [exact NN|]. eexists. reflexivity.
+Qed.
+
 Theorem gen_processSignature_equiv :
   good (PS v sigBlob mt policy ids stores sv cfg out0) (ps_obs lvl the_sc).
+
 Proof.
-Admitted.
+  unfold gen_verifier_verifier_processSignature. rewrite H_int. fold o1.
+  pose proof H_ir as (ir & PI & TI & AI & FI). rewrite PI. cbn [r_type r_action r_failed] in PI, TI, AI, FI.
+  unfold ps_obs. cbn [s_integrity_ok the_sc].
+  assert (EI : negb (is_none (ValidationResult_Error ir)) = negb b_int) by exact FI.
+  rewrite EI. assert (BI : b_int = true \/ b_int = false) by (destruct b_int; tauto).
+  destruct BI as [BI|BI]; rewrite BI in EI, FI |- *; cbn [negb].
+  2:{ (* integrity failed *)
+    apply good_ret with (news := [irp]); [exact o1_agree|exact o1_results| |].
+    - cbn. constructor; [|constructor]. exists ir. repeat split; assumption.
+    - cbn. split.
+      + destruct (ValidationResult_Error ir); [discriminate|discriminate EI].
+      + exists irp, ir. repeat split; try assumption. left; reflexivity. }
+  pose proof (H_env BI) as HE.
+  assert (E1 : ptr_val (VerificationOutcome_EnvelopeContent C o1) = Some env) by exact HE.
+  rewrite E1.
+  assert (RI : res_is irp integ) by (exists ir; repeat split; assumption).
+  assert (GI : forall e0, e0 <> None -> good (Some (o1, e0)) (EOther, [integ])).
+  { intros e0 N. apply good_ret with (news := [irp]); [exact o1_agree|exact o1_results| |exact N].
+    constructor; [exact RI|constructor]. }
+  assert (GN : forall f w, good (Some (o1, Some (Err inconclusive_typ f w))) (EInconclusive, [integ])).
+  { intros f w. apply good_ret with (news := [irp]); [exact o1_agree|exact o1_results| |].
+    - constructor; [exact RI|constructor].
+    - exists f, w. reflexivity. }
+  fold (disc_obs (discover the_sc)). rewrite discover_by_plugin_res.
+  change (s_plugin_attr the_sc) with (attr_state hdr_plugin attrs).
+  change (s_nonstring_crit the_sc) with (nonstring_crit_of attrs).
+  destruct (gen_getVerificationPlugin_equiv C (EnvelopeContent_SignerInfo C env)) as [X1 X2].
+  fold sinfo in X1, X2 |- *. fold attrs in X1 |- *.
+  destruct (gen_verifier_getVerificationPlugin C sinfo) as [name e]. unfold xres_of in X1. cbn [fst snd] in X1, X2.
+  destruct (loop1_skip [] o1 e name attrs) as [LS1 LS2].
+  destruct e as [x|]; cbn [is_none negb andb].
+  - destruct (err_same (Some x) verifier_errExtendedAttributeNotExist) eqn:SM; cbn [negb]; rewrite <- X1.
+    + (* the header is absent *)
+      rewrite (X2 ltac:(discriminate)) in *.
+      destruct (nonstring_crit_of attrs) eqn:NS.
+      * destruct (LS1 eq_refl) as (f & w & ->). apply GN.
+      * rewrite (LS2 eq_refl).
+        pose proof (body_spec (Some x) "" BI HE RI NS) as B. rewrite <- X1 in B. apply B. left. split; reflexivity.
+    + apply GI. discriminate.
+  - rewrite <- X1.
+    destruct (nonstring_crit_of attrs) eqn:NS.
+    * destruct (LS1 eq_refl) as (f & w & ->). apply GN.
+    * rewrite (LS2 eq_refl).
+      pose proof (body_spec None name BI HE RI NS) as B. rewrite <- X1 in B. apply B. right. reflexivity.
+Qed.
 
 End PS.
+
+(* ====================================================================== *)
+(* Part C. the theorem in packaged form, and what it transports            *)
+(* ====================================================================== *)
+
+(* the oracles of the generated function *)
+Record oracles := mk_oracles {
+  or_cmp : string -> string -> Z;                               (* golang.org/x/mod/semver.Compare *)
+  or_C : Type;                                                  (* *x509.Certificate *)
+  or_subject : or_C -> string;                                  (* cert.Subject.String() *)
+  or_getmeta : ptr plugin_GetMetadataRequest -> ptr plugin_GetMetadataResponse * option GoLib.err;  (* plugin: get-plugin-metadata *)
+  or_PL : Type;                                                 (* plugin.Plugin *)
+  or_get : string -> or_PL * option GoLib.err;                  (* pluginManager.Get *)
+  or_vsig : ptr plugin_VerifySignatureRequest -> ptr plugin_VerifySignatureResponse * option GoLib.err; (* plugin: verify-signature *)
+  or_VP : Type;                                                 (* plugin.VerifyPlugin *)
+  or_raw : or_C -> list Z;                                      (* cert.Raw *)
+  or_integrity : list Z -> string -> ptr (notation_go_VerificationOutcome or_C)
+                 -> ptr (signature_EnvelopeContent or_C) * ptr notation_go_ValidationResult;         (* verifyIntegrity *)
+  or_load : string -> string -> list string -> (string -> string -> list or_C * option GoLib.err)
+            -> list or_C * option GoLib.err;                    (* loadX509TrustStores *)
+  or_authenticity : list or_C -> ptr (notation_go_VerificationOutcome or_C) -> ptr notation_go_ValidationResult; (* verifyAuthenticity *)
+  or_identities : string -> list string -> list or_C -> option GoLib.err;                           (* verifyX509TrustedIdentities *)
+  or_expiry : ptr (notation_go_VerificationOutcome or_C) -> ptr notation_go_ValidationResult;        (* verifyExpiry *)
+  or_timestamp : string -> list string -> trustpolicy_SignatureVerification
+                 -> (string -> string -> list or_C * option GoLib.err)
+                 -> ptr (revocation_ValidateContextOptions or_C -> list (ptr result_CertRevocationResult) * option GoLib.err)
+                 -> ptr (notation_go_VerificationOutcome or_C) -> ptr notation_go_ValidationResult;  (* verifyAuthenticTimestamp *)
+  or_signing_time : ptr (signature_SignerInfo or_C) -> Z * option GoLib.err;                         (* SignerInfo.AuthenticSigningTime *)
+  or_PM : Type;                                                 (* plugin.Manager *)
+  or_ppr : list string -> ptr plugin_VerifySignatureResponse -> notation_go_VerificationOutcome or_C
+           -> notation_go_VerificationOutcome or_C * option GoLib.err;                               (* processPluginResponse *)
+  or_up : or_PL -> or_VP }.                                     (* the Plugin used as a VerifyPlugin *)
+
+(* the arguments of one call *)
+Record call (O : oracles) := mk_call {
+  cl_v : verifier_verifier (or_C O) (or_PM O);
+  cl_sig : list Z; cl_media : string; cl_policy : string;
+  cl_identities : list string; cl_stores : list string;
+  cl_sv : trustpolicy_SignatureVerification;
+  cl_config : list (string * string);
+  cl_outcome : notation_go_VerificationOutcome (or_C O) }.
+Arguments cl_v {O}. Arguments cl_sig {O}. Arguments cl_media {O}. Arguments cl_policy {O}.
+Arguments cl_identities {O}. Arguments cl_stores {O}. Arguments cl_sv {O}. Arguments cl_config {O}.
+Arguments cl_outcome {O}.
+
+(* what the oracles answered during it, and the native facts *)
+Record facts (O : oracles) := mk_facts {
+  ft_envp : ptr (signature_EnvelopeContent (or_C O));   (* verifyIntegrity: the envelope content *)
+  ft_irp : ptr notation_go_ValidationResult;            (* verifyIntegrity: the integrity result *)
+  ft_env : signature_EnvelopeContent (or_C O);
+  ft_level : trustpolicy_VerificationLevel;             (* outcome.VerificationLevel *)
+  ft_certs : list (or_C O); ft_load_err : option GoLib.err;   (* loadX509TrustStores *)
+  ft_integrity_ok : bool; ft_authentic : bool; ft_expired : bool; ft_ts_ok : bool; ft_rev_ok : bool;
+  ft_resp : ptr plugin_VerifySignatureResponse; ft_resp_err : option GoLib.err;   (* the plugin's verify-signature answer *)
+  ft_presp : presp }.
+Arguments ft_envp {O}. Arguments ft_irp {O}. Arguments ft_env {O}. Arguments ft_level {O}. Arguments ft_certs {O}.
+Arguments ft_load_err {O}. Arguments ft_integrity_ok {O}. Arguments ft_authentic {O}. Arguments ft_expired {O}.
+Arguments ft_ts_ok {O}. Arguments ft_rev_ok {O}. Arguments ft_resp {O}. Arguments ft_resp_err {O}. Arguments ft_presp {O}.
+
+(* the generated function on these *)
+Definition run (O : oracles) (K : call O) : option (notation_go_VerificationOutcome (or_C O) * option GoLib.err) :=
+  gen_verifier_verifier_processSignature (or_cmp O) (or_C O) (or_subject O) (or_getmeta O) (or_PL O) (or_get O) (or_vsig O)
+    (or_VP O) (or_raw O) (or_integrity O) (or_load O) (or_authenticity O) (or_identities O) (or_expiry O) (or_timestamp O)
+    (or_signing_time O) (or_PM O) (or_ppr O) (or_up O)
+    (cl_v K) (cl_sig K) (cl_media K) (cl_policy K) (cl_identities K) (cl_stores K) (cl_sv K) (cl_config K) (cl_outcome K).
+
+(* the scenario of VerifyCore and the enforcement map this call realises *)
+Definition scenario_of (O : oracles) (K : call O) (F : facts O) : scenario :=
+  the_sc (or_C O) (or_getmeta O) (or_PL O) (or_get O) (or_identities O) (or_PM O) (cl_v K) (cl_policy K) (cl_identities K)
+         (cl_config K) (ft_env F) (ft_integrity_ok F) (ft_authentic F) (ft_expired F) (ft_ts_ok F) (ft_rev_ok F) (ft_presp F).
+Definition level_of_call (O : oracles) (F : facts O) : level := lvl (ft_level F).
+
+Definition agrees (O : oracles) (K : call O) (F : facts O) := agree (or_C O) (cl_outcome K) (ft_envp F).
+Definition matches_model (O : oracles) (K : call O) (F : facts O) := good (or_C O) (cl_outcome K) (ft_envp F).
+
+(* "every oracle answers like the model of it" *)
+Definition Describes (O : oracles) (K : call O) (F : facts O) : Prop :=
+  let l := level_of_call O F in
+  (* verifyIntegrity *)
+  or_integrity O (cl_sig K) (cl_media K) (PNew (cl_outcome K)) = (ft_envp F, ft_irp F)
+  /\ res_is (ft_irp F) (mk_res TIntegrity Enforce (negb (ft_integrity_ok F)))
+  /\ (ft_integrity_ok F = true -> ptr_val (ft_envp F) = Some (ft_env F))
+  (* the level handed in *)
+  /\ ptr_val (VerificationOutcome_VerificationLevel (or_C O) (cl_outcome K)) = Some (ft_level F)
+  (* at most one min-version header *)
+  /\ (forall a, In a (attrs (or_C O) (ft_env F)) -> str_key a = Some hdr_minver ->
+                find_attr hdr_minver (attrs (or_C O) (ft_env F)) = Some a)
+  (* trust store based authenticity *)
+  /\ or_load O (scheme (or_C O) (ft_env F)) (cl_policy K) (cl_stores K) (verifier_trustStore (or_C O) (or_PM O) (cl_v K))
+     = (ft_certs F, ft_load_err F)
+  /\ (ft_load_err F <> None -> ft_authentic F = false)
+  /\ (ft_load_err F = None -> forall o, agrees O K F o ->
+        res_is (or_authenticity O (ft_certs F) (PNew o)) (mk_res TAuth (l_auth l) (negb (ft_authentic F))))
+  (* expiry, authentic timestamp *)
+  /\ (forall o, agrees O K F o -> res_is (or_expiry O (PNew o)) (mk_res TExpiry (l_exp l) (ft_expired F)))
+  /\ (forall o, agrees O K F o ->
+        res_is (or_timestamp O (cl_policy K) (cl_stores K) (cl_sv K) (verifier_trustStore (or_C O) (or_PM O) (cl_v K))
+                             (verifier_revocationTimestampingValidator (or_C O) (or_PM O) (cl_v K)) (PNew o))
+               (mk_res TTimestamp (l_ts l) (negb (ft_ts_ok F))))
+  (* the revocation validator (through the translated verifyRevocation) *)
+  /\ (rev_ok_of (or_C O) (or_signing_time O) (or_PM O) (cl_v K) (ft_env F) <-> ft_rev_ok F = true)
+  (* x/mod/semver.Compare *)
+  /\ compare_agrees (or_cmp O) /\ compare_range (or_cmp O)
+  (* the plugin's verify-signature answer (through the translated executePlugin) *)
+  /\ (forall req, or_vsig O (PNew req) = (ft_resp F, ft_resp_err F))
+  /\ (ft_presp F = PErr <-> negb (is_none (ft_resp_err F)) || ptr_is_nil (ft_resp F) = true)
+  (* processPluginResponse *)
+  /\ (forall cs o news rs processed ti rev,
+        agrees O K F o ->
+        VerificationOutcome_VerificationResults (or_C O) o = VR0 (or_C O) (cl_outcome K) ++ news ->
+        Forall2 res_is news rs -> ft_presp F = PResp processed ti rev ->
+        matches_model O K F (Some (or_ppr O cs (ft_resp F) o))
+          (process_plugin_response crit_processed l (scenario_of O K F) (map cap_of cs) processed ti rev rs)).
+
+(* THE THEOREM: the generated processSignature is the model *)
+Theorem gen_processSignature_is_model (O : oracles) (K : call O) (F : facts O) :
+  Describes O K F ->
+  matches_model O K F (run O K) (obs2 (process_signature (level_of_call O F) (scenario_of O K F))).
+Proof.
+  intros (H1 & H2 & H3 & H4 & H5 & H6 & H7 & H8 & H9 & H10 & H11 & H12 & H13 & H14 & H15 & H16).
+  rewrite ps_obs_correct. unfold matches_model, run, level_of_call, scenario_of.
+  apply (gen_processSignature_equiv (or_cmp O) (or_C O) (or_subject O) (or_getmeta O) (or_PL O) (or_get O) (or_vsig O)
+           (or_VP O) (or_raw O) (or_integrity O) (or_load O) (or_authenticity O) (or_identities O) (or_expiry O)
+           (or_timestamp O) (or_signing_time O) (or_PM O) (or_ppr O) (or_up O)
+           (cl_v K) (cl_sig K) (cl_media K) (cl_policy K) (cl_identities K) (cl_stores K) (cl_sv K) (cl_config K) (cl_outcome K)
+           (ft_envp F) (ft_irp F) (ft_env F) (ft_level F) (ft_certs F) (ft_load_err F)
+           (ft_integrity_ok F) (ft_authentic F) (ft_expired F) (ft_ts_ok F) (ft_rev_ok F) (ft_resp F) (ft_resp_err F) (ft_presp F));
+    assumption.
+Qed.
+
+(* unpacked: the function returns; what it appended to outcome.VerificationResults are the model's
+   results (type, action read as the code reads it, failed = Error is not nil) in order; the error
+   it returns has the model's class; nothing else of the outcome changes but EnvelopeContent *)
+Corollary gen_processSignature_returns (O : oracles) (K : call O) (F : facts O) :
+  Describes O K F ->
+  let ob := process_signature (level_of_call O F) (scenario_of O K F) in
+  exists out e news,
+    run O K = Some (out, e)
+    /\ VerificationOutcome_VerificationResults (or_C O) out
+       = VerificationOutcome_VerificationResults (or_C O) (cl_outcome K) ++ news
+    /\ Forall2 res_is news (o_results ob)
+    /\ err_rel e (o_err ob) news
+    /\ VerificationOutcome_EnvelopeContent (or_C O) out = ft_envp F
+    /\ VerificationOutcome_VerificationLevel (or_C O) out = VerificationOutcome_VerificationLevel (or_C O) (cl_outcome K)
+    /\ (e = None <-> accepted ob = true).
+Proof.
+  intros D ob. destruct (gen_processSignature_is_model O K F D) as (out & e & news & R & [A1 A2] & V & F2 & E).
+  exists out, e, news. cbn [obs2 fst snd] in F2, E. fold ob in F2, E.
+  repeat split; try assumption.
+  - unfold accepted. destruct (o_err ob); cbn in E |- *; intros; subst; try reflexivity; try discriminate.
+    + destruct E as [E _]. now elim E.
+    + destruct E as (f & w & E). discriminate.
+    + now elim E.
+  - unfold accepted. destruct (o_err ob); cbn in E |- *; try discriminate. intros _. exact E.
+Qed.
+
+(* transported C02_exact_all: the code's own processSignature returns an error EXACTLY WHEN integrity
+   failed, or a validation whose action is enforce failed, or one of the plugin / attribute reasons
+   holds (C02_problem_parts spells them out) *)
+Corollary gen_processSignature_rejects_iff (O : oracles) (K : call O) (F : facts O) :
+  Describes O K F ->
+  let l := level_of_call O F in let sc := scenario_of O K F in
+  exists out e, run O K = Some (out, e)
+    /\ (e <> None <->
+        s_integrity_ok sc = false \/ enforced_failure l sc = true \/ plugin_or_attribute_problem l sc = true).
+Proof.
+  intros D l sc. destruct (gen_processSignature_returns O K F D) as (out & e & news & R & _ & _ & _ & _ & _ & A).
+  exists out, e. split; [exact R|]. fold l sc in A.
+  rewrite <- (exact_all_iff l sc). unfold verify_core.
+  destruct (accepted (process_signature l sc)); split; intros H.
+  - elim H. now apply A.
+  - discriminate.
+  - reflexivity.
+  - intros N. apply A in N. discriminate.
+Qed.
+
+(* transported C02_monotone_all: two calls that differ only in the enforcement map handed in
+   (same scenario), the second map pointwise no stricter: accepted by the first => accepted by the second *)
+Corollary gen_processSignature_monotone (O : oracles) (K1 K2 : call O) (F1 F2 : facts O) :
+  Describes O K1 F1 -> Describes O K2 F2 ->
+  scenario_of O K1 F1 = scenario_of O K2 F2 ->
+  level_le (level_of_call O F1) (level_of_call O F2) = true ->
+  forall out1 out2 e2, run O K1 = Some (out1, None) -> run O K2 = Some (out2, e2) -> e2 = None.
+Proof.
+  intros D1 D2 ES LE out1 out2 e2 R1 R2.
+  destruct (gen_processSignature_returns O K1 F1 D1) as (o1' & e1' & n1 & R1' & _ & _ & _ & _ & _ & A1).
+  destruct (gen_processSignature_returns O K2 F2 D2) as (o2' & e2' & n2 & R2' & _ & _ & _ & _ & _ & A2).
+  rewrite R1 in R1'. injection R1' as <- <-. rewrite R2 in R2'. injection R2' as <- <-.
+  apply A2. rewrite <- ES. apply (monotone_all (level_of_call O F1) (level_of_call O F2) _ LE). now apply A1.
+Qed.
+
+(* ---------- non-vacuity: an instance of [Describes] ---------- *)
+Definition ex_cmp (a b : string) : Z :=
+  match a, b with
+  | String _ a', String _ b' => match xcompare (bytes a') (bytes b') with Lt => (-1)%Z | Eq => 0%Z | Gt => 1%Z end
+  | _, _ => 0%Z
+  end.
+
+Definition ex_vr (t : string) (e : option GoLib.err) := PNew (mk_ValidationResult t "enforce" e).
+Definition ex_env : signature_EnvelopeContent unit :=
+  mk_EnvelopeContent unit
+    (mk_SignerInfo unit (mk_SignedAttributes "notary.x509" 0%Z 0%Z
+         [mk_Attribute (GoLib.AStr "string" "note") false (GoLib.AStr "string" "x")])
+       (mk_UnsignedAttributes [] "") 0%Z [tt] [])
+    (mk_Payload "application/vnd.cncf.notary.payload.v1+json" []).
+
+Definition ex_O : oracles :=
+  mk_oracles ex_cmp unit (fun _ => "CN=leaf") (fun _ => (PNil, None)) unit (fun _ => (tt, None)) (fun _ => (PNil, None)) unit
+    (fun _ => [])
+    (fun _ _ _ => (PNew ex_env, ex_vr "integrity" None))
+    (fun _ _ _ _ => ([tt], None))
+    (fun _ _ => ex_vr "authenticity" None)
+    (fun _ _ _ => None)
+    (fun _ => PNew (mk_ValidationResult "expiry" "log" (Some (Err "fmt" "digital signature has expired on %q" []))))
+    (fun _ _ _ _ _ _ => PNew (mk_ValidationResult "authenticTimestamp" "log" None))
+    (fun _ => (0%Z, None)) unit
+    (fun _ _ o => (o, None)) (fun _ => tt).
+
+Definition ex_out0 : notation_go_VerificationOutcome unit :=
+  mk_VerificationOutcome unit [] PNil trustpolicy_LevelPermissive [] None.
+Definition ex_K : call ex_O :=
+  mk_call ex_O (mk_verifier unit unit PNil PNil (fun _ _ => ([tt], None)) PNil PNil PNil PNil)
+          [] "application/jose+json" "policy" ["x509.subject: CN=leaf"] ["ca:s"]
+          (mk_SignatureVerification "permissive" [] "") [] ex_out0.
+Definition ex_F : facts ex_O :=
+  mk_facts ex_O (PNew ex_env) (ex_vr "integrity" None) ex_env trustpolicy_LevelPermissive_v [tt] None
+           true true true true false PNil None PErr.
+
+Lemma ex_cmp_agrees : compare_agrees ex_cmp.
+Proof.
+  intros v w _ _. unfold ex_cmp, sign_of. cbn [String.append].
+  destruct (xcompare (bytes v) (bytes w)); reflexivity.
+Qed.
+Lemma ex_cmp_range : compare_range ex_cmp.
+Proof.
+  intros a b. unfold ex_cmp. destruct a as [|? a']; [tauto|]. destruct b as [|? b']; [tauto|].
+  destruct (xcompare (bytes a') (bytes b')); tauto.
+Qed.
+
+Lemma ex_describes : Describes ex_O ex_K ex_F.
+Proof.
+  unfold Describes. cbv zeta.
+  split; [reflexivity|]. split; [eexists; repeat split; reflexivity|]. split; [reflexivity|]. split; [reflexivity|].
+  split. { intros a [<-|[]] H. vm_compute in H. discriminate. }
+  split; [reflexivity|]. split; [intros H; now elim H|].
+  split. { intros _ o _. eexists. repeat split; reflexivity. }
+  split. { intros o _. eexists. repeat split; reflexivity. }
+  split. { intros o _. eexists. repeat split; reflexivity. }
+  split. { split; [|discriminate]. intros (rs & H & _). discriminate. }
+  split; [exact ex_cmp_agrees|]. split; [exact ex_cmp_range|].
+  split; [reflexivity|]. split; [split; reflexivity|].
+  intros cs o news rs processed ti rev _ _ _ H. discriminate.
+Qed.
+
+(* the hypotheses are satisfiable, and on this instance the generated function can also be run: an
+   expired signature under the permissive level, no revocation validator configured: accepted with the
+   two failures reported (expiry, revocation), as the model says *)
+Example gen_processSignature_example :
+  Describes ex_O ex_K ex_F
+  /\ (exists out, run ex_O ex_K = Some (out, None)
+                  /\ List.length (VerificationOutcome_VerificationResults unit out) = 5%nat)
+  /\ verify_core (level_of_call ex_O ex_F) (scenario_of ex_O ex_K ex_F)
+     = mk_obs ENone [mk_res TIntegrity Enforce false; mk_res TAuth Enforce false; mk_res TExpiry Log true;
+                     mk_res TTimestamp Log false; mk_res TRev Log true] true [] None.
+Proof.
+  split; [exact ex_describes|]. split.
+  - eexists. split; vm_compute; reflexivity.
+  - vm_compute. reflexivity.
+Qed.
